@@ -24,6 +24,10 @@ MODELS = [
      "module": "MC_Header", "cfg": "MC_Header_quick.cfg", "props": ["C11"], "tiers": ["quick"], "workers": 8, "timeout": 900},
     {"name": "MC_Header (retarget interval scaled to 4 blocks, all honest chains of <= 9 headers (two retargets) from 3 starting difficulties, 5 timestamp choices, 3 networks)",
      "module": "MC_Header", "cfg": "MC_Header_thorough.cfg", "props": ["C11"], "tiers": ["thorough"], "workers": 16, "timeout": 7000, "heap": "16g"},
+    {"name": "MC_System (watchdog tick in four awaited steps around the canister's api flag, one operator intervention, 3 explorers with one faulty per round, network height <= 5: writes are decisions; liveness: behind => eventually disabled, in band => eventually enabled)",
+     "module": "MC_System", "cfg": "MC_System_quick.cfg", "props": ["C17"], "tiers": ["quick"], "workers": 8, "timeout": 900},
+    {"name": "MC_System (two overlapping ticks)",
+     "module": "MC_System", "cfg": "MC_System_thorough.cfg", "props": ["C17"], "tiers": ["thorough"], "workers": 12, "timeout": 6000, "heap": "16g"},
     {"name": "MC_Watchdog (4 providers, quorum 2, band +-2, grid of 6 results, all rounds from all states)",
      "module": "MC_Watchdog", "cfg": "MC_Watchdog.cfg", "props": ["C17"], "tiers": ["quick", "thorough"], "workers": 8, "timeout": 600},
     {"name": "MC_Tree (<= 4 blocks, diffs {1,2}, thr {1,2}, mainnet + regtest with depth bound 2)",
